@@ -15,7 +15,9 @@ META = {
         "signatures / coroutine bodies is defined (before or after A) and driven, a subclass of A's class "
         "adding a state and transitions on inherited states is defined, a definition that fails validation "
         "is attempted. A's trace must still match the reference interpreter, every callback must run on "
-        "A's own objects, and the other instance must match the reference too. distinct_nontrivial = "
+        "A's own objects, and the other instance must match the reference too. "
+        "further interference: per-instance hooks, an unrelated class whose state ids equal names A resolves on itself followed by a new instance of A's class, another instance of A's class over a bare model (accepted iff no referenced name is missing), two-machine probes with partial / decorator-wrapped callbacks. "
+        "distinct_nontrivial = "
         "distinct (interference class, position in the history, engine) observed."
     ),
     "assumptions": [
